@@ -117,6 +117,27 @@ func (p *prep) pos(f *sx.T) {
 	case "not":
 		p.neg(f.L[1])
 		return
+	case "=>":
+		// c => (A and B)  and  c => forall x. B   (facts learnt on a branch and merged): distribute the condition
+		if len(f.L) == 3 {
+			c, rhs := f.L[1], f.L[2]
+			switch rhs.Head() {
+			case "and":
+				for _, x := range rhs.L[1:] {
+					p.pos(sx.App("=>", c, x))
+				}
+				return
+			case "forall":
+				body, pats := stripBang(rhs.L[2])
+				p.qs = append(p.qs, Quant{Name: fmt.Sprintf("h%d", len(p.qs)), Vars: bindersOf(rhs), Body: sx.App("=>", c, body), Pats: pats})
+				return
+			case "=>":
+				if len(rhs.L) == 3 && (rhs.L[2].Head() == "forall" || rhs.L[2].Head() == "and") {
+					p.pos(sx.App("=>", sx.And(c, rhs.L[1]), rhs.L[2]))
+					return
+				}
+			}
+		}
 	}
 	p.hyps = append(p.hyps, f)
 }
@@ -283,7 +304,7 @@ func inferPatterns(q Quant) [][]*sx.T {
 }
 
 // maxGen bounds how often instantiation may build on terms that instantiation itself created.
-const maxGen = 2
+const maxGen = 8
 
 // redundantNest reports terms of the shape snapN_key(snapN_idx(...)) / snapN_idx(snapN_key(...)):
 // the snapshot axioms make them equal to their argument, so matching on them only feeds a matching loop.
@@ -597,7 +618,15 @@ func race(text string, timeout time.Duration, dumpTo string) (status, solver, ra
 		go func(s []string) {
 			defer wg.Done()
 			t0 := time.Now()
-			args := append(append([]string{}, s[1:]...), f.Name())
+			// solver-side time and memory limits are a backstop in case the process outlives this one
+			secs := int(timeout.Seconds()) + 2
+			var lim []string
+			if strings.HasPrefix(s[0], "z3") {
+				lim = []string{fmt.Sprintf("-T:%d", secs), "-memory:4096"}
+			} else {
+				lim = []string{fmt.Sprintf("--tlimit=%d", secs*1000)}
+			}
+			args := append(append(append([]string{}, s[1:]...), lim...), f.Name())
 			out, _ := exec.CommandContext(ctx, s[0], args...).CombinedOutput()
 			ch <- res{statusOf(string(out)), s[0], string(out), time.Since(t0).Seconds()}
 		}(s)
@@ -615,7 +644,7 @@ func race(text string, timeout time.Duration, dumpTo string) (status, solver, ra
 			best = r
 		}
 	}
-	go func() { wg.Wait() }()
+	wg.Wait() // the losers are killed by cancel(); do not leave them behind
 	return best.st, best.solver, best.raw, best.secs
 }
 
